@@ -53,7 +53,10 @@ func init() {
 	})
 	extend("C04", "C04_matmul", nil, func() []Item { return pairItemsLo(2, 2, 4) })
 	extend("C06", "C06_slice", func() []Item { return rankItems(1, 1, 4, nil) }, func() []Item { return rankItems(1, 2, 4, nil) })
-	extend("C06", "C06_reshape", nil, func() []Item { return rankItems(1, 2, 4, map[string]int64{"maxrank2": 4}) })
+	extend("C06", "C06_flatten", func() []Item { return rankItems(3, 3, 2, nil) }, nil)
+	extend("C06", "C06_squeeze", func() []Item { return rankItems(3, 3, 2, nil) }, nil)
+	extend("C06", "C06_unsqueeze", func() []Item { return rankItems(3, 3, 2, nil) }, nil)
+	extend("C06", "C06_reshape", func() []Item { return rankItems(3, 3, 2, map[string]int64{"maxrank2": 3}) }, func() []Item { return rankItems(1, 2, 4, map[string]int64{"maxrank2": 4}) })
 	extend("C06", "C06_broadcast", func() []Item { return rankItems(1, 2, 2, map[string]int64{"maxrank2": 4}) }, func() []Item { return rankItems(1, 2, 3, map[string]int64{"maxrank2": 4}) })
 	extend("C03", "C03_binary", nil, func() []Item {
 		return sItems("op", []string{"Add", "Mul"}, []Item{{P: map[string]int64{"ra": 2, "rb": 4, "maxdim": 2}}, {P: map[string]int64{"ra": 4, "rb": 2, "maxdim": 2}}})
